@@ -146,6 +146,10 @@ pub fn case_string() -> String {
     format!("{}{:?}", k, n)
 }
 
+/// In the panic=abort build a panic ends the process: calls that are *expected* to panic are
+/// not made there (every other call still is; a panic then is a violation by itself).
+pub const ABORT_BUILD: bool = cfg!(panic = "abort");
+
 pub fn install_panic_hook() {
     let default = panic::take_hook();
     panic::set_hook(Box::new(move |info| {
